@@ -643,6 +643,23 @@ func (r *runner) namedPrograms() {
 				"f0.thrift:W type=list<double> value=[double:1,double:2,double:3]",
 				"f0.thrift:L type=list<i64> value=[int:1,int:2,int:3]",
 			}},
+		// a struct constant referenced where another struct type (or the same type under a
+		// typedef) is declared: the referrer gets its own cast value, with the defaults of ITS
+		// type; the referenced constant keeps the value of its own declared type
+		{"struct-constant-referenced-under-another-struct-type", map[string]string{
+			"/m/f0.thrift": "struct A { 1: optional i32 x = 5; 2: optional double y }\nstruct B { 1: optional i32 x; 2: optional i32 y }\ntypedef B TB\nconst B b = {\"y\": 2}\nconst A a = b\nconst TB t = b\nconst B b2 = b\n"},
+			[]string{
+				"f0.thrift:b type=/m/f0.thrift:B(struct) value=struct{y=int:2}",
+				"f0.thrift:b2 type=/m/f0.thrift:B(struct) value=struct{y=int:2}",
+				"f0.thrift:a type=/m/f0.thrift:A(struct) value=struct{x=int:5;y=double:2}",
+			}},
+		{"struct-default-taken-from-a-constant-of-another-struct-type", map[string]string{
+			"/m/f0.thrift": "include \"./f1.thrift\"\nstruct A { 1: optional i32 x = 5 }\nstruct H { 1: optional A a = f1.b }\n",
+			"/m/f1.thrift": "struct B { 1: optional i32 x }\nconst B b = {}\nconst B c = b\n"},
+			[]string{
+				"f1.thrift:b type=/m/f1.thrift:B(struct) value=struct{}",
+				"f1.thrift:c type=/m/f1.thrift:B(struct) value=struct{}",
+			}},
 		{"set-and-map-constants-referenced-under-other-element-types", map[string]string{
 			"/m/f0.thrift": "const set<i32> S = [1, 2]\nconst set<double> SD = S\nconst map<i32, i32> M = {1: 2}\nconst map<i32, double> MD = M\nconst map<double, i32> DM = M\nconst set<i32> S2 = S\nconst map<i32, i32> M2 = M\n"},
 			[]string{
